@@ -1,7 +1,7 @@
 (* C17 — marker projections only ever weaken.
    Proved on the unsimplified structure ([only_raw]: foreign leaves replaced by the universal marker):
    the projection mentions only the requested names and holds wherever the marker holds; and (level 2, partial —
-   relative to the premises of Proofs/MarkerAlgProofs.v) on the projection as implemented, which re-simplifies
+   on every class of clauses meeting the premises of Proofs/MarkerAlgProofs.v; one such class is exhibited) on the projection as implemented, which re-simplifies
    through MultiMarker.of / MarkerUnion.of.  Exclusion and reduction by a Python range are judged on the
    implementation by the oracle. *)
 From Coq Require Import List Bool NArith String.
@@ -15,7 +15,10 @@ Theorem C17_only_names : forall names m n, In n (names_of (only_raw names m)) ->
 Proof. exact only_raw_names. Qed.
 Print Assumptions C17_only_names.
 
-Theorem C17_only_simplified_partial : forall E, key_sound E -> key_symmetric -> merge_sound E ->
-  forall fuel st names m r, only fuel st names m = Ok r -> beval E m = true -> beval E r = true.
+Theorem C17_only_simplified_partial : forall E R, clause_class E R ->
+  forall fuel st names m r, G R m -> only fuel st names m = Ok r -> (beval E m = true -> beval E r = true) /\ G R r.
 Proof. exact only_weakens. Qed.
 Print Assumptions C17_only_simplified_partial.
+Theorem C17_class_exists : forall E, clause_class E demo_R.
+Proof. exact demo_class. Qed.
+Print Assumptions C17_class_exists.
